@@ -127,6 +127,19 @@ CHECKS["C18"] = dict(
     note="Stubs: GPG verification returns (True, real digest); revocation list injected. Outside: UTF-8 + SHA-256 (assumed "
          "injective / collision resistant), GPG, ruamel YAML loading, the Python<3.12 str(play) branch.")
 
+CHECKS["C08"] = dict(
+    text="Bounded symbolic execution of the real Cleaner.clean_content and the parse_line of all six cleaners on symbolic lines: "
+         "templates of sensitive tokens (IPv4 with every octet shape and symbolic digits, MAC with symbolic hex digits / separator / "
+         "case, system short name / fqdn / another host of the domain with symbolic label, keywords, password key + separator shape "
+         "+ symbolic secret incl. several pairs per line, exclusion patterns in plain and POSIX-bracket regex form) glued by "
+         "unconstrained context characters; the repo's regular expressions are interpreted by SymRe from the running modules' "
+         "pattern strings; the solver must prove that no delimited token of the input occurs delimited in the output, that "
+         "matching lines are dropped, secrets masked, and that no_obfuscate / no_redact switch exactly the named cleaner off.",
+    note="Stubs: inet_aton/ntoa + struct contract on canonical quads, sha1 as an uninterpreted function, solver-compared dict keys. "
+         "SymRe/SStr are differentially tested against CPython on the module's own patterns every run. Outside: IPv6, arbitrary "
+         "user regexes beyond the 12-pattern corpus, tokens formed accidentally by context characters, first octet 0, archive "
+         "collection, failure of cleaning as a whole (nothing is produced then).")
+
 NOT_APPLICABLE = {
 }
 
